@@ -1,7 +1,7 @@
 (* C17 -- wavelet transforms: inverse, energy, linearity, coefficient tables, centring.
    The Daubechies tables (and the orientation of the two filters) are GENERATED from _convolve.cpp. *)
 Require Import QArith.
-Require Import MV.Base.Prelude MV.Base.QHelp MV.Gen.Tables_gen MV.Model.Wavelet MV.Proof.WaveletProof.
+Require Import MV.Base.Prelude MV.Base.QHelp MV.Gen.Tables_gen MV.Model.Wavelet MV.Proof.WaveletProof MV.Proof.Haar2D.
 Open Scope Z_scope.
 
 (* ihaar undoes haar on every row of even length (both are applied to rows, then to columns through the transposed view) *)
@@ -33,3 +33,9 @@ Theorem C17_center_offsets_exceed_border : forall fuel dims border c g, 0 <= bor
 Proof. exact center_search_offsets. Qed.
 Theorem C17_decenter_inverts_center : forall l ns d, 0 <= d -> decenter1 (center1 l ns d) (Zlen l) d = l.
 Proof. exact decenter_center. Qed.
+
+(* the full two-pass transforms (rows, then columns; the inverse in the same order): ihaar(haar(f)) = f for EVERY integer image
+   with even sides -- the inverse pass along the rows meets column-transformed data, and the divisions by 2 are still exact *)
+Theorem C17_ihaar_inverts_haar_2d : forall m n f, rect (2 * m) (2 * n) f ->
+  ihaar2d (2 * n) (2 * m) (haar2d (2 * n) (2 * m) f) = f.
+Proof. exact ihaar2d_haar2d. Qed.
